@@ -5,6 +5,7 @@ import hashlib
 import json
 import os
 import re
+import sys
 import time
 from dataclasses import dataclass, field
 from typing import Optional
@@ -207,14 +208,22 @@ def finish(res: Result, tier: str, seed: int, t0: float, explanation: str, assum
         fh.write("\n")
 
     if not quiet:
-        print(f"[{res.prop}] tier={tier} units={res.units} functions={res.functions} "
-              f"obligations={res.obligations} discharged={res.discharged} "
-              f"known={len(listed)} new={len(new)} errors={len(res.errors)} wall={wall:.2f}s")
-        for fam in sorted(res.instances):
-            fl = res.floors.get(fam)
-            print(f"  instances {fam}: {res.instances[fam]}" + (f" (floor {fl})" if fl is not None else ""))
-        if res.selftest:
-            print(f"  selftest: {json.dumps(res.selftest)}")
-        for line in out:
-            print(line)
+        try:
+            print(f"[{res.prop}] tier={tier} units={res.units} functions={res.functions} "
+                  f"obligations={res.obligations} discharged={res.discharged} "
+                  f"known={len(listed)} new={len(new)} errors={len(res.errors)} wall={wall:.2f}s")
+            for line in out:            # protocol lines (VIOLATION / KNOWN-FINDING / ANALYSIS-ERROR) first
+                print(line)
+            for fam in sorted(res.instances):
+                fl = res.floors.get(fam)
+                print(f"  instances {fam}: {res.instances[fam]}" + (f" (floor {fl})" if fl is not None else ""))
+            if res.selftest:
+                print(f"  selftest: {json.dumps(res.selftest)}")
+            sys.stdout.flush()
+        except BrokenPipeError:
+            # the reader closed the pipe (e.g. `| head`): the exit code still carries the verdict
+            try:
+                sys.stdout = open(os.devnull, "w")
+            except OSError:
+                pass
     return code
